@@ -23,7 +23,7 @@ def run(ctx):
     if not ok_h:
         return
     quick = ctx.tier == "quick"
-    results = engine.run_programs(ctx, 40 if quick else 400, 4 if quick else 10, ["canon", "closes", "probe"],
+    results = engine.run_programs(ctx, 40 if quick else 200, 4 if quick else 8, ["canon", "closes", "probe"],
                                   surjective_only=True, tag="c06")
     ctx.cov["programs"] = engine.status_counts(results)
     engine.describe_program_failures(ctx, results)
